@@ -107,6 +107,9 @@ def main(argv=None):
         print('replay: %d violation(s) reproduced' % len(viol))
         return 1 if viol else 0
 
+    import glob
+    for old in glob.glob(os.path.join(common.REPLAY, pid + '-*.json')):
+        os.remove(old)
     specs = mod.plan(a.tier, seed)
     timeout = getattr(mod, 'SHARD_TIMEOUT', {}).get(a.tier, 1500 if a.tier == 'quick' else 14000)
     results, problems = run_shards(pid, specs, jobs=a.jobs, timeout=timeout)
